@@ -7,7 +7,7 @@ Import ListNotations.
 Theorem C15_failure_blocks_and_changes_nothing :
   forall lm lu sdk c o f,
     c_failure c = Some f -> single_data_op o = true -> v1_name_ok sdk (name_of o) = true ->
-    (match o with OBatchGet _ => sdk = V2 | _ => True end) ->
+    (match o with OBatchGet _ _ => sdk = V2 | _ => True end) ->
     fst (step lm lu sdk c o) = c /\
     o_res (snd (step lm lu sdk c o)) = RErr (match o with OTransact => ForcedFailure | _ => failure_err f end).
 Proof. exact failure_blocks. Qed.
@@ -23,7 +23,7 @@ Theorem C15_failure_erasable :
   forall lm lu sdk c f ops,
     c_failure c = None ->
     Forall (fun o => single_data_op o = true /\ v1_name_ok sdk (name_of o) = true /\
-                     match o with OBatchGet _ => sdk = V2 | _ => True end) ops ->
+                     match o with OBatchGet _ _ => sdk = V2 | _ => True end) ops ->
     set_failure (fold_left (fun c o => fst (step lm lu sdk c o)) ops (set_failure c (Some f))) None = c.
 Proof. exact failure_erasable. Qed.
 
